@@ -23,7 +23,7 @@ N = {"quick": 170, "thorough": 6000}
 REQUIRE = {"quick": {"runs": 150, "steps_checked": 1500, "completions": 100, "post_completion_steps": 300, "sampling_steps": 1000,
                      "batch_gt_active_runs": 15, "cost_steps": 100, "budget_terminations": 3, "Kgtm_runs": 10,
                      "variants_run": 11, "vogp_ad_runs": 10, "interleaved_pairs": 10}}
-TIMEOUT = {"quick": 1500, "thorough": 7200}
+TIMEOUT = {"quick": 1500, "thorough": 14400}
 ALL = ["PaVeBa", "PaVeBaGP-IH", "PaVeBaGP-DE", "PartialGP-rect", "PartialGP-ell", "VOGP", "EpsilonPAL", "Auer", "Auer-emp",
        "NaiveElimination", "DecoupledGP"]
 
